@@ -299,10 +299,17 @@ class Base:
                 annotations = self.annotations if not args or not any(self is arg for arg in args) else ()
             else:
                 annotations = simplified.annotations
-        if variables is None and op in all_operations:
-            variables = self.variables
-        if symbolic is None and op in all_operations:
-            symbolic = self.symbolic
+        # a leaf keeps the metadata it was created with -- taken from the leaf itself: from the simplified form if the
+        # new expression collapsed to a leaf, from self only if self is that leaf (same operation and arguments)
+        source = simplified if simplified is not None else self
+        same_args = simplified is not None or (
+            len(args) == len(self.args) and all(a is b for a, b in zip(args, self.args, strict=True))
+        )
+        if op in all_operations and source.op == op and same_args:
+            if variables is None:
+                variables = source.variables
+            if symbolic is None:
+                symbolic = source.symbolic
 
         return type(self)(
             op,
